@@ -259,9 +259,10 @@ func vfC06(w *vfWorld) {
 			}
 		case 4: // protected path requested before login (skip-provider-button) / reverse-proxy forwarding headers
 			b := w.NewBrowser("Bflow", "198.51.100.21:1")
-			req := &vfReq{Method: "GET", Target: "/app/page?x=1"}
+			// (paths that merely START like the proxy's own prefix are application paths like any other)
+			want := vfPick(t, "c06.protected", []string{"/app/page?x=1", "/app/page?x=1", pp + "-docs/index.html?x=1", pp + "callbackx?y=2", pp + "x/y", "/app" + pp + "/start"})
+			req := &vfReq{Method: "GET", Target: want}
 			channel := "protected-path"
-			want := "/app/page?x=1"
 			if cfg.ReverseProxy && headerSafe(s) {
 				channel = "X-Forwarded-*"
 				switch t.Choice("c06.fwd", 3) {
